@@ -721,7 +721,8 @@ func SetD(n *Node, rv reflect.Value, d D) {
 	case "t":
 		rv.Set(reflect.ValueOf(d.T))
 	case "sl":
-		s := reflect.MakeSlice(rv.Type(), len(d.L), len(d.L))
+		// every other non-empty slice has spare capacity (an append-grown slice): its length is what counts
+		s := reflect.MakeSlice(rv.Type(), len(d.L), len(d.L)+int(emptyForm.Add(1)%2)*3)
 		for i, x := range d.L {
 			SetD(n.Elem, s.Index(i), x)
 		}
